@@ -55,8 +55,8 @@ P['C16'] = {
     'units': ['repeat', 'vsrc', 'fsrc', 'sigmf', 'kani:repeat'],
     'technique': 'Verus contracts on Repeat::{finite,infinite,again,done,count} and a history invariant on VectorSource::work over the stream contract; Kani cross-check of Repeat on the compiled code',
     'level_text': 'Deductive proof, no bound: the repeat counter has no precondition on call order and never under/overflows (count < 2^64-1 assumed); VectorSource::work preserves produced == data^count ++ data[..pos] with marker tags exactly once per repetition on its first sample, returns EOF exactly when data^N has been emitted and never for an infinite repeat, for every data length and every write-window length (all consumer schedules). FileSource::work and SigMFSource::work likewise (count whole passes of the data, EOF only when all are out, never for infinite with non-empty data, repeat 0 emits nothing, empty data ends at once).',
-    'level_note': 'Trusted: the stream-API contract of units/stream_prelude.vx, vec!/Vec (vstd), reader shims (POSIX read/seek). Assumption of both file sources: the data is a whole number of samples.',
-    'not_covered': ['VectorSourceBuilder, VectorSource::new / set_repeat, SigMFSourceBuilder (constructors establish the invariant by inspection only)', 'data files with a trailing partial sample (repetitions after the first would be misaligned)'],
+    'level_note': 'Trusted: the stream-API contract of units/stream_prelude.vx, vec!/Vec (vstd), reader shims (POSIX read/seek).',
+    'not_covered': ['VectorSourceBuilder, VectorSource::new / set_repeat, SigMFSourceBuilder (constructors establish the invariant by inspection only)'],
     'assumptions': ['A-COUNT: fewer than 2^64-1 repetitions', 'the invariant is established by VectorSource::new (pos 0, count 0, empty output) -- not under contract (calls new_stream)'],
 }
 
@@ -84,14 +84,14 @@ P['C08'] = {
     'not_covered': _NOT_COVERED_BLOCKS, 'assumptions': _BLOCK_ASSUME,
 }
 P['C09'] = {
-    'units': list(_BU) + _FIR + ['zc', 'symsync', 'il2p', 'sigmf', 'hdlc', 'fsrc', 'fsink', 'tcp', 'au', 'auenc', 'bx:sync', 'bx:dsp'],
+    'units': list(_BU) + _FIR + ['zc', 'symsync', 'il2p', 'sigmf', 'hdlc', 'fsrc', 'fsink', 'tcp', 'au', 'auenc', 'misc', 'bx:sync', 'bx:dsp'],
     'technique': 'Verus: call-site preconditions of consume/produce (n <= window, window belongs to the stream, not stale) and verdict postconditions on each covered work()',
     'level_text': 'Deductive proof for the covered work() bodies: every consume/produce call site stays within its window and uses a window of that stream; WaitForStream(s, need) is returned only when stream s offered fewer than need in this call (so the wait names the blocking stream and asks for what is missing); Again only from a call that made progress; an empty input yields a wait on the input; EOF only when the data is exhausted. No window escapes work() (syntactic check of rule X-WIN). Bounded only: wait truthfulness of sync blocks by timing (bx:sync), Again-means-progress of the float blocks (bx:dsp).',
     'level_note': 'Subset only. "holds no window after return" is a syntactic check of the extractor, stated as such.',
     'not_covered': _NOT_COVERED_BLOCKS + ['graph.rs / mtgraph.rs handling of the verdicts'], 'assumptions': _BLOCK_ASSUME,
 }
 P['C10'] = {
-    'units': list(_BU) + _FIR + ['kernels', 'kani:lfsr'],
+    'units': list(_BU) + _FIR + ['kernels', 'kani:lfsr', 'bx:rtlsdr'],
     'technique': 'Verus stream-function invariants (spec function F per block written from its documentation) + Kani full-domain proofs of the LFSR steps',
     'level_text': 'Deductive proof for a stated subset: Skip, Delay, VectorSource, VecToStream, ConstantSource, NullSink, RationalResampler (documented keep/repeat rule), FirFilter (counts; values float), RtlSdrDecode (one I/Q per byte pair), StreamToPdu (burst rule), Hilbert / FftStream / FftFilter (framing; kernels uninterpreted) emit exactly F(input) with exact counts; the per-sample kernels of NrziDecode, Tee, the two correlators and BurstTagger equal their documented rule; descrambler and IL2P LFSR steps equal their recurrences for all register/mask/seed values (Kani).',
     'level_note': 'Subset only; the generated per-sample loop around the kernels, the text formatter and float values are not decided.',
